@@ -35,10 +35,14 @@ def handle : List String → String
   | ["quote", kind, p, "|", _ref] =>
     match parseRunes p with
     | some p =>
-      let lit := if kind == "regex" then goStringLit (emitRegex p) else goStringLit (emitDefault p)
-      match lit with
-      | none => "noparse"
-      | some s => "lit=" ++ renderRunes s
+      -- `default=`: the code after pending/C13-quote.diff (strconv.Quote); "?" = quoting of some rune not modelled
+      let emitted : Option (List Nat) := if kind == "regex" then some (emitRegex p) else emitDefaultFixed p
+      match emitted with
+      | none => "?"
+      | some e =>
+        match goStringLit e with
+        | none => "noparse"
+        | some s => "lit=" ++ renderRunes s
     | none => "bad-op"
   | _ => "bad-op"
 
